@@ -1820,7 +1820,7 @@ class Rule(metaclass=LogicalType):
             with context.enter(route=i) as item_context:
                 try:
                     item_context.transformer(item, cls.contains)
-                except (TypeError, ValueError):
+                except Exception:  # noqa: an item that does not convert is an item that is not contained
                     pass
                 else:
                     contains += 1
